@@ -415,6 +415,10 @@ class ConditionLike:
 
             cond_call_str = spec_key_split[-1]
             cond_call_str = CALLABLE_LOOKUP.get(cond_call_str, cond_call_str)
+            # callable names may contain upper-case letters (e.g. `keys_contain_N_of`):
+            cond_call_str = {i.lower(): i for i in dir(cls)}.get(
+                cond_call_str, cond_call_str
+            )
             # special case:
             if cond_call_str in ["is_instance", "keys_is_instance"]:
                 try:
